@@ -6,6 +6,7 @@ package vault
 
 import (
 	"context"
+	"os"
 	"fmt"
 	"strings"
 	"testing"
@@ -739,6 +740,8 @@ func TestVerif_C04_Schedules(t *testing.T) {
 		{"2create|revoke-parent", 2, "parent", ""},
 		{"create|revoke-self", 1, "self", ""},
 		{"create|revoke-parent@ns1", 1, "parent", "ns1/"},
+		{"create-under-grand|revoke-grand", 1, "grand+", ""}, // the revoked token already has a child (subtree torn down first)
+		{"2create-under-grand|revoke-grand", 2, "grand+", ""},
 	}
 	for _, tx := range []bool{false, true} {
 		v := c04Boot(t, tx)
@@ -758,6 +761,14 @@ func TestVerif_C04_Schedules(t *testing.T) {
 				}
 				_ = m.addLease(parent)
 				_ = m.addCubby(parent)
+				under := parent // the token the concurrent creations are made under
+				if sc.revoke == "grand+" {
+					under = grand
+				}
+				saltedUnder := ""
+				if te, lerr := v.Core.tokenStore.Lookup(c04NSCtx(v, sc.ns), under.ID); lerr == nil && te != nil {
+					saltedUnder, _ = v.Core.tokenStore.SaltID(c04NSCtx(v, sc.ns), te.ID)
+				}
 				type cres struct {
 					tok *c04Tok
 					err error
@@ -770,19 +781,19 @@ func TestVerif_C04_Schedules(t *testing.T) {
 					ci := ci
 					reqs = append(reqs, kit.Req{Tag: fmt.Sprintf("c%d", ci), Fn: func() {
 						// built by hand: m.create appends to the model concurrently otherwise
-						resp, err := v.Do(vReq{Op: logical.UpdateOperation, Path: "auth/token/create", Token: parent.ID, Data: map[string]any{"policies": []string{"c04"}, "ttl": "1h"}, NS: sc.ns})
+						resp, err := v.Do(vReq{Op: logical.UpdateOperation, Path: "auth/token/create", Token: under.ID, Data: map[string]any{"policies": []string{"c04"}, "ttl": "1h"}, NS: sc.ns})
 						if !vOK(resp, err) || resp == nil || resp.Auth == nil {
 							cr[ci].err = fmt.Errorf("%s", vErrStr(resp, err))
 							return
 						}
-						cr[ci].tok = &c04Tok{ID: resp.Auth.ClientToken, Accessor: resp.Auth.Accessor, NS: sc.ns, Parent: parent, ParentN: parent.Name, Alive: true}
+						cr[ci].tok = &c04Tok{ID: resp.Auth.ClientToken, Accessor: resp.Auth.Accessor, NS: sc.ns, Parent: under, ParentN: under.Name, Alive: true}
 					}})
 				}
 				reqs = append(reqs, kit.Req{Tag: "rev", Fn: func() {
 					switch sc.revoke {
 					case "parent":
 						revResp, revErr = v.Do(vReq{Op: logical.UpdateOperation, Path: "auth/token/revoke", Token: v.Root, Data: map[string]any{"token": parent.ID}, NS: sc.ns})
-					case "grand":
+					case "grand", "grand+":
 						revResp, revErr = v.Do(vReq{Op: logical.UpdateOperation, Path: "auth/token/revoke", Token: v.Root, Data: map[string]any{"token": grand.ID}, NS: sc.ns})
 					case "self":
 						revResp, revErr = v.Do(vReq{Op: logical.UpdateOperation, Path: "auth/token/revoke-self", Token: parent.ID, NS: sc.ns})
@@ -817,21 +828,48 @@ func TestVerif_C04_Schedules(t *testing.T) {
 					r.Count("both_succeeded", 1)
 				}
 				switch sc.revoke {
-				case "grand":
+				case "grand", "grand+":
 					m.killTree(grand)
 				default:
 					m.killTree(parent)
 				}
-				// F3 family: the create request and the tree revocation interleaved, and the creator DID
-				// re-check its parent right before writing the child (the get of a token id record
-				// between its accessor-index put and its parent-index put) and found it live. What the
-				// unchanged code lacks is a re-check after the writes / a re-list by the revoker; a
-				// creator that does not even perform that re-check is a different defect.
-				overlap := false
-				if sched.Overlap() {
+				// F3 family (open finding): the creation and the tree revocation interleaved so that neither side
+				// could have seen the other with the checks the code has, i.e. the creator DID re-check its
+				// parent right before writing the child (the get of a token id record between its
+				// accessor-index put and its parent-index put) and found it live, AND
+				//  (A) the child's parent-index entry was written after the revoker's LAST listing of that
+				//      parent's children, that listing being the final one (between it and the revoker's
+				//      mark of the parent the revoker tore down no other token), or
+				//  (B) the revoker did look at the child (its index entry / id record) but before the
+				//      creation had finished (the creator still wrote afterwards).
+				// Anything else - a creator without the re-check, a revoker that never lists a parent again
+				// after tearing down its subtree - is a different defect and keeps the generic class.
+				f3 := map[int]bool{}
+				if sched.Overlap() && saltedUnder != "" {
+					lastList, mark := -1, -1
+					for i, st := range sched.Steps {
+						if st.Tag != "rev" {
+							continue
+						}
+						if (st.Op == "list" || st.Op == "listpage") && !st.After && strings.Contains(st.Key, "sys/token/parent/"+saltedUnder) { // the step at which the listing executes (After = the point after an operation)
+							lastList = i
+						}
+						if st.Op == "put" && !st.After && strings.Contains(st.Key, "sys/token/id/"+saltedUnder) && mark < 0 {
+							mark = i
+						}
+					}
+					finalList := lastList >= 0
+					if lastList >= 0 && mark > lastList {
+						for i := lastList + 1; i < mark; i++ {
+							st := sched.Steps[i]
+							if st.Tag == "rev" && !st.After && (st.Op == "put" || st.Op == "delete") && strings.Contains(st.Key, "sys/token/id/") && !strings.Contains(st.Key, saltedUnder) {
+								finalList = false // the revoker tore down another token after that listing: it was not the final look
+							}
+						}
+					}
 					for ci := 0; ci < sc.creates; ci++ {
 						tag := fmt.Sprintf("c%d", ci)
-						acc, par, recheck := -1, -1, false
+						acc, par, lastPut, recheck := -1, -1, -1, false
 						for i, st := range sched.Steps {
 							if st.Tag != tag {
 								continue
@@ -844,20 +882,47 @@ func TestVerif_C04_Schedules(t *testing.T) {
 							case st.Op == "get" && strings.Contains(st.Key, "sys/token/id/") && acc >= 0 && par < 0:
 								recheck = true
 							}
+							if st.Op == "put" {
+								lastPut = i
+							}
 						}
-						if par >= 0 && recheck {
-							overlap = true
+						if par < 0 || !recheck {
+							continue
+						}
+						saltedChild := ""
+						if cr[ci].tok != nil {
+							if te, lerr := v.Core.tokenStore.lookupTainted(c04NSCtx(v, sc.ns), cr[ci].tok.ID); lerr == nil && te != nil {
+								saltedChild, _ = v.Core.tokenStore.SaltID(c04NSCtx(v, sc.ns), te.ID)
+							}
+						}
+						windowA := finalList && par > lastList
+						windowB := false
+						if saltedChild != "" {
+							for i, st := range sched.Steps {
+								if st.Tag == "rev" && strings.Contains(st.Key, saltedChild) && i < lastPut {
+									windowB = true
+								}
+							}
+						}
+						if windowA || windowB {
+							f3[ci] = true
+						}
+						if os.Getenv("VERIF_C04_TRACE") != "" {
+							t.Logf("%s: c%d par=%d lastList=%d mark=%d finalList=%v recheck=%v A=%v B=%v saltedUnder=%s", caseID, ci, par, lastList, mark, finalList, recheck, windowA, windowB, saltedUnder)
 						}
 					}
 				}
-				if overlap {
+				if len(f3) > 0 {
 					r.Count("create_overlapped_revoke", 1)
 				}
 				m.steps = []string{sc.name, fmt.Sprintf("tx=%v", tx), "schedule: " + sched.String()}
 				v.WaitQuiet(10*time.Millisecond, time.Second)
 				classify := func(kind string, tk *c04Tok) string {
-					if kind == "dead-token-usable" && strings.HasPrefix(tk.Name, "child") && overlap {
-						return "C04-F3-child-created-concurrently-with-tree-revocation-survives"
+					if kind == "dead-token-usable" && strings.HasPrefix(tk.Name, "child") {
+						var ci int
+						if _, err := fmt.Sscanf(tk.Name, "child%d", &ci); err == nil && f3[ci] {
+							return "C04-F3-child-created-concurrently-with-tree-revocation-survives"
+						}
 					}
 					return ""
 				}
